@@ -111,6 +111,7 @@ def order_of(b):
 
 # ======================= C11 =======================
 def c11_task(shard, tid, seed, n, src_order, dst_order, mode):
+    _quiet_shutdown()
     """All functions of n variables copied from src_order to dst_order."""
     rng = random.Random(seed)
     names = NAMES[:n] + ['x0', 'x1']
@@ -266,6 +267,7 @@ def c11_task(shard, tid, seed, n, src_order, dst_order, mode):
 
 
 def copy_vars_conflict_task(shard, tid, seed, ntraces):
+    _quiet_shutdown()
     """C17: `copy_vars` into managers it must refuse (conflicting level of one
     variable, reversed order, a used level): after the ValueError the receiver
     must be as before."""
@@ -318,8 +320,156 @@ def copy_vars_conflict_task(shard, tid, seed, ntraces):
     return dict(shard=shard, traces=ntraces, events=nev, fingerprints=fps, samples=[])
 
 
+# ============ S2 for MC_CopyLoad: model paths replayed into two real managers ============
+class _B:
+    def __init__(self, b):
+        self.bdd = b
+
+
+def copyload_graph_task(shard, dot, part, nparts, limit, seed, first_tid, tmpdir):
+    """Replay paths of MC_CopyLoad's state graph into two dd.bdd managers (and
+    real pickle / JSON files); every transfer is recorded for TraceXfer, and
+    after every action BOTH managers' tables are compared with the model state."""
+    from harness.drivers import graph
+    from harness.drivers.history import build_tt
+    _quiet_shutdown()
+    os.makedirs(tmpdir, exist_ok=True)
+    last, edges, roots = graph.read_graph(dot)
+    paths, nstates = graph.bfs_paths(last, edges, roots)
+    paths = graph.sample_paths(paths, limit, seed)
+    mine = paths[part::nparts]
+    conf = dict(steps=0, equal=0, fields={}, first=None)
+    fps = set()
+    nev = 0
+    cwd = os.getcwd()
+    work = os.path.join(tmpdir, 'cl_%d' % os.getpid())
+    os.makedirs(work, exist_ok=True)
+    os.chdir(work)
+    try:
+        with open(shard, 'w') as f:
+            for i, p in enumerate(mine):
+                st0 = graph.model_state(dot, p[0])
+                names = list(st0['src']['names'])
+                src = mk_bdd(list(st0['src']['order']))
+                dst = mk_bdd(list(st0['dst']['order']))
+                hs, hd = {}, {}
+                events = []
+                ok = True
+
+                def val(a):
+                    k, sg = a
+                    return sg if k == 0 else sg * hs[k]
+
+                def put(b, h, k, r):
+                    b.incref(r)
+                    old = h.get(k)
+                    h[k] = r
+                    if old is not None:
+                        b.decref(old)
+                for n in p:
+                    a = last[n]
+                    kind = a[0]
+                    if kind == 'init':
+                        pass
+                    elif kind == 'svar':
+                        put(src, hs, a[1], src.var(a[2]))
+                    elif kind == 'dvar':
+                        put(dst, hd, a[1], dst.var(a[2]))
+                    elif kind in ('sbuild', 'dbuild'):
+                        b, h = (src, hs) if kind == 'sbuild' else (dst, hd)
+                        tt = sum(1 << x for x in a[2])
+                        put(b, h, a[1], build_tt(_B(b), names, tt))
+                    elif kind == 'site':
+                        put(src, hs, a[1], src.ite(val(a[2]), val(a[3]), val(a[4])))
+                    elif kind == 'ddrop':
+                        dst.decref(hd.pop(a[1]))
+                    elif kind == 'dgc':
+                        dst.collect_garbage()
+                    elif kind in ('copy', 'pickle_levels', 'pickle_names', 'json'):
+                        u = val(a[2])
+                        ev = Ev('copy' if kind == 'copy' else 'io', kind, names, src, ext_of(hs.values()),
+                                dst, ext_of(hd.values()), must_accept=True, may_declare=False,
+                                model_path=True)
+                        exc, r = '', 0
+                        try:
+                            if kind == 'copy':
+                                r = src.copy(u, dst)
+                            elif kind.startswith('pickle'):
+                                fn = os.path.join(work, 'p_%d.p' % i)
+                                src.dump(fn, roots=[u])
+                                r = dst.load(fn, levels=(kind == 'pickle_levels'))[0]
+                            else:
+                                fn = os.path.join(work, 'j_%d.json' % i)
+                                sa = _autoref.BDD()
+                                sa._bdd = src
+                                sa.vars = src.vars
+                                da = _autoref.BDD()
+                                da._bdd = dst
+                                da.vars = dst.vars
+                                fu = sa._wrap(u)
+                                sa.dump(fn, roots=[fu])
+                                got = da.load(fn)
+                                r = int(got[0])
+                                dst.incref(r)          # the user's reference survives the wrappers
+                                del got, fu
+                                gc.collect()
+                                dst.decref(r)
+                        except Exception as e:   # noqa
+                            exc = type(e).__name__
+                        if not exc:
+                            put(dst, hd, a[1], r)
+                        events.append(ev.done(src, ext_of(hs.values()), dst, ext_of(hd.values()),
+                                              [u], [r] if not exc else [], exc))
+                        if exc:
+                            break
+                    elif kind == 'dddmp':
+                        break          # dddmp.load returns a new manager: covered by the C16 driver
+                    else:
+                        raise RuntimeError('unknown MC_CopyLoad action %r' % (a,))
+                    if ok:
+                        ms = graph.model_state(dot, n)
+                        bad = ['src.' + x for x in graph.conformance(dict(m=ms['src']), adapter.snap(src, {}, names))]
+                        bad += ['dst.' + x for x in graph.conformance(dict(m=ms['dst']), adapter.snap(dst, {}, names))]
+                        conf['steps'] += 1
+                        if not bad:
+                            conf['equal'] += 1
+                        else:
+                            ok = False
+                            for x in bad:
+                                conf['fields'][x] = conf['fields'].get(x, 0) + 1
+                            if conf['first'] is None:
+                                conf['first'] = dict(actions=[repr(last[x]) for x in p[:p.index(n) + 1]],
+                                                     differs=bad)
+                if events:
+                    f.write(json.dumps(dict(t=first_tid + i, meta=dict(driver='copyload_graph'),
+                                            events=events), separators=(',', ':')) + '\n')
+                    nev += len(events)
+                fps.add(tuple(repr(last[x]) for x in p))
+    finally:
+        os.chdir(cwd)
+    kinds = {}
+    if part == 0:
+        for v in last.values():
+            kinds[v[0]] = kinds.get(v[0], 0) + 1
+    return dict(shard=shard, traces=len(mine), events=nev, fingerprints=fps, samples=[],
+                model_states=nstates, kinds=kinds, conformance=conf)
+
+
 # ======================= C12 =======================
+def _quiet_shutdown():
+    """Managers of this driver are discarded while references are still held:
+    their `__del__` assertion (tested on its own by C08) is only noise here."""
+    if getattr(_bdd.BDD.__del__, '_quiet', False):
+        return
+
+    def quiet(self):
+        pass
+    quiet._quiet = True
+    _bdd.BDD.__del__ = quiet
+
+
 def c12_task(shard, tid0, seed, ntraces, tmpdir):
+    _quiet_shutdown()
     rng = random.Random(seed)
     os.makedirs(tmpdir, exist_ok=True)
     fps = set()
